@@ -42,7 +42,12 @@ structure OSet where
   revision : Nat
   conds : List Cond
   controllerOf : List CRef
+  remotePhases : List (String × String)   -- status.remotePhases: (name, uid) of delegated phase objects
   deriving DecidableEq, Repr, Inhabited
+
+/-- `addRemoteObjectSetPhase`: replace the reference with the same name or append. -/
+def addRemote (refs : List (String × String)) (r : String × String) : List (String × String) :=
+  if refs.any (·.1 = r.1) then refs.map fun x => if x.1 = r.1 then r else x else refs ++ [r]
 
 def OSet.owner (o : OSet) : Owner :=
   { group := pkoGroup, kind := o.kind, ns := o.ns, name := o.name, uid := o.uid,
@@ -156,7 +161,7 @@ def Sys.setFinalizer (s : Sys) (mem : OSet) (present : Bool) : Sys × Except Api
 /-- `client.Status().Update`: replaces the status of the stored object by the in-memory one. -/
 def Sys.updateStatus (s : Sys) (mem : OSet) : Sys × Except ApiErr OSet :=
   let (s', r) := s.lockedWrite mem fun cur =>
-    { cur with revision := mem.revision, conds := mem.conds, controllerOf := mem.controllerOf }
+    { cur with revision := mem.revision, conds := mem.conds, controllerOf := mem.controllerOf, remotePhases := mem.remotePhases }
   let ev res := SetEvent.statusUpdate mem.name res mem.revision mem.conds mem.controllerOf
   match r with
   | .ok stored => ({ s' with setEvents := s'.setEvents ++ [ev none] }, .ok { mem with rv := stored.rv })
@@ -265,7 +270,7 @@ structure Remotes where
 /-- previous revisions as the lookup sees them (missing ones become empty records). -/
 def lookupPrev (s : Sys) (o : OSet) : List Prev :=
   o.previous.map fun n => match s.sets n with
-    | some p => { kind := p.kind, name := p.name, uid := p.uid, remotes := [] }
+    | some p => { kind := p.kind, name := p.name, uid := p.uid, remotes := p.remotePhases }
     | none => { kind := o.kind, name := "", uid := "", remotes := [] }
 
 def availableCond (gen : Nat) (ok : Bool) (reason msg : String) : Cond :=
@@ -284,15 +289,26 @@ def firstProblem : List (Option OSet) → Option Bool
   | none :: _ => some true
   | some p :: rest => if p.revision = 0 then some false else firstProblem rest
 
-/-- `reportPausedCondition` (no delegated phases: phasesArePaused = spec paused) followed by the
-final `updateStatus`. -/
-def finishMem (mem : OSet) : OSet :=
-  if mem.lifecycle = .paused then
-    { mem with conds := setCond mem.conds ⟨"Paused", "True", "Paused", mem.gen, ""⟩ }
-  else { mem with conds := removeCond mem.conds "Paused" }
+/-- `areRemotePhasesPaused`: `none` = unknown (a phase object is missing). -/
+def remotePhasesPaused (w : World) (mem : OSet) : Option Bool :=
+  let ps := mem.remotePhases.map fun r => w.phases r.1
+  if ps.any (·.isNone) then none
+  else some ((ps.filterMap id).all fun p => condTrue p.conds "Paused")
+
+/-- `reportPausedCondition`: without delegated phases "phases are paused" = spec paused. -/
+def finishMem (w : World) (mem : OSet) : OSet :=
+  let spec := mem.lifecycle = .paused
+  let are : Option Bool := if mem.remotePhases.isEmpty then some (decide spec) else remotePhasesPaused w mem
+  match are with
+  | some a =>
+    if decide spec = a then
+      if a then { mem with conds := setCond mem.conds ⟨"Paused", "True", "Paused", mem.gen, ""⟩ }
+      else { mem with conds := removeCond mem.conds "Paused" }
+    else { mem with conds := setCond mem.conds ⟨"Paused", "Unknown", "PartiallyPaused", mem.gen, ""⟩ }
+  | none => { mem with conds := setCond mem.conds ⟨"Paused", "Unknown", "PartiallyPaused", mem.gen, ""⟩ }
 
 def finish (s : Sys) (mem : OSet) (res : Res) : Sys × Res :=
-  afterStatus (s.updateStatus (finishMem mem)) res
+  afterStatus (s.updateStatus (finishMem s.w mem)) res
 
 /-- `UpdateObjectSetOrPhaseStatusFromError` for preflight / collision errors. -/
 def statusFromError (s : Sys) (mem : OSet) (reason : String) : Sys × Res :=
@@ -331,7 +347,9 @@ def activePhases (cfg : Cfg) (rm : Remotes) (s : Sys) (mem : OSet) : Sys × Res 
   else
     let prev := lookupPrev s mem
     let (w, pr) := reconcilePhases cfg mem.owner prev (rm.recon mem) mem.phases s.w []
-    let s := { s with w := w }
+    -- RemotePhaseReferences collected while reconciling delegated phases (`SetRemotePhases`)
+    let mem := { mem with remotePhases := w.remoteRefs.foldl addRemote mem.remotePhases }
+    let s := { s with w := { w with remoteRefs := [] } }
     match pr with
     | .error .preflight => statusFromError s mem "PreflightError"
     | .error .collision => statusFromError s mem "CollisionDetected"
